@@ -63,7 +63,8 @@ let last_op : string list ref = ref []
 
 let pfx_op (f : string list) =
   last_op := f;
-  (match f with "ans" :: j :: src :: _ -> Hashtbl.replace i_ans_src j src | _ -> ());
+  (* where the answer came from, and the publisher's number at the moment it answered (the Data may be delivered much later) *)
+  (match f with "ans" :: j :: src :: _ -> Hashtbl.replace i_ans_src j (src ^ " " ^ !i_pub_seq) | _ -> ());
   match f with
   | ["pa"; n] | ["ra"; n] -> m_pub := announce (n_of_dec n) !m_pub
   | ["pw"; n] | ["rw"; n] -> m_pub := withdraw (n_of_dec n) !m_pub
@@ -107,12 +108,13 @@ let pfx_obs (f : string list) =
                (Printf.sprintf "peer %s known=%s set=%s publisher-set-then=%s" j known set s));
       (* progress: a snapshot answered by the publisher itself must move the peer forward (otherwise the two
          thresholds do not fit and a peer that is far behind never catches up) *)
-      (match !last_op, Hashtbl.find_opt i_last j with
-       | "del" :: j' :: _, Some (k0, "snap") when j' = j && Hashtbl.find_opt i_ans_src j = Some "-" && (known <> k0 || pending <> "snap") ->
-           (* a delivery happened (state changed). If the peer really was more than the fetch threshold behind the
-              publisher's true number, the publisher's own snapshot must have moved it forward *)
-           if not (dec_lt k0 known) && dec_lt k0 !i_pub_seq && fetch_snap_test (n_of_dec !i_pub_seq) (n_of_dec k0) then
-             oracle "pfx-snapshot-does-not-advance-peer" (Printf.sprintf "peer %s known %s -> %s after a snapshot from the publisher at %s" j k0 known !i_pub_seq)
+      (match !last_op, Hashtbl.find_opt i_last j, Hashtbl.find_opt i_ans_src j with
+       | "del" :: j' :: _, Some (k0, "snap"), Some src when j' = j && String.length src > 2 && String.sub src 0 2 = "- " && (known <> k0 || pending <> "snap") ->
+           (* a delivery happened (state changed). If, when the publisher ANSWERED, the peer really was more than the
+              fetch threshold behind the publisher's number of that moment, the snapshot must move it forward *)
+           let seq_then = String.sub src 2 (String.length src - 2) in
+           if not (dec_lt k0 known) && dec_lt k0 seq_then && fetch_snap_test (n_of_dec seq_then) (n_of_dec k0) then
+             oracle "pfx-snapshot-does-not-advance-peer" (Printf.sprintf "peer %s known %s -> %s after a snapshot answered by the publisher at %s" j k0 known seq_then)
        | _ -> ());
       Hashtbl.replace i_last j (known, pending);
       (* ... in particular (extracted predicate peer_ok) equal to the current set once caught up *)
